@@ -19,16 +19,18 @@ def parse_case(line):
     for _ in range(nact):
         name, st, en, nch = int(t[p]), int(t[p + 1]), int(t[p + 2]), int(t[p + 3]); p += 4
         chunks = []
-        custom = False
+        custom = nokeys = False
         for _ in range(nch):
             nk = int(t[p]); p += 1
             kids = t[p:p + nk]; p += nk
             if kids != ['8', '9', '0', '1', '2', '3', '4', '5', '10', '6', '7']:
                 custom = True
+            if not set(kids) & set("01234567"):
+                nokeys = True
             ns = int(t[p]); p += 1
             chunks.append([int(t[p + i * nk]) for i in range(ns)])
             p += ns * nk
-        actors.append({"name": name, "start": st, "end": en, "chunks": chunks, "custom": custom})
+        actors.append({"name": name, "start": st, "end": en, "chunks": chunks, "custom": custom, "nokeys": nokeys})
     assert t[p] == "=>"
     status = t[p + 1]
     nout = int(t[p + 2])
@@ -58,6 +60,8 @@ def features(actors, nout):
             f.add("ge3_samples_in_a_second")
         if a["custom"]:
             f.add("hand_built_documents")
+        if a["nokeys"]:
+            f.add("stream_without_selected_keys")
         if ts and ts[0] <= 0:
             f.add("timestamps_at_or_before_epoch")
         if ts and ts[0] > 7000000000000:
@@ -119,9 +123,9 @@ def run(c):
     cases = os.path.join(c.work, "c20.cases")
     cov = {"rule": "1..4 actors, each a stream of 1..40 (long cases: 320..720) events.Performance values through "
                    "Basic/Passthrough collectors over Batch/Streaming FTDC collectors with chunk size in {1,2,7,50} "
-                   "(or hand-built documents with unselected neighbour keys), timestamps with many samples per second, "
+                   "(or hand-built documents with unselected neighbour keys, rarely with none of the eight keys), timestamps with many samples per second, "
                    "exact-second ticks, duplicates and 2..6 s gaps; StartTime/EndTime from GetGennyTime or hand-chosen "
-                   "(+-4 s); time axis at wall clock, around/before the epoch, two centuries ahead, 2^50 (int64 first metric). "
+                   "(+-4 s); time axis at wall clock, around/before the epoch, two centuries ahead. "
                    "non-trivial = >= 2 actors or a gap >= 2 s or >= 3 samples in one second or multi-chunk input; "
                    "distinct by the text of the inputs",
            "evaluations": 0, "distinct_nontrivial": 0, "samples": [], "disagreements_checked": 0}
@@ -159,13 +163,14 @@ def run(c):
         "chunks are modelled row-wise with key ids (0..7 = the eight selected keys); the key-string table, the "
         "transposition of Metric.Values and the equal-length check live in the Go harness",
         "int64(math.Ceil(float64(ts)/1000)) is modelled as (ts + 999) / 1000 (floor division): exact for "
-        "|ts| < 2^43 * 1000; exercised at wall-clock values, around/before the epoch, year ~2198 and (int64 first metric) near 2^50",
+        "|ts| < 2^43 * 1000; exercised at wall-clock values, around/before the epoch and year ~2198 (FTDC date metrics outside 1678..2262 overflow in epochMs/UnixNano, a collector matter outside C20, so larger values cannot be observed)",
         "ctx is never cancelled; collector errors (log.Fatal) need an output schema change, which streams carrying "
         "all eight keys cannot produce - not modelled, not driven",
         "an actor without any chunk panics (nil chunk): model outcome None, excluded from the theorems by has_chunks, "
         "observed once in a subprocess",
         "C20_selected_first needs keys_ok (every sample carries one of the eight keys): translateMetrics returns a "
-        "nil slice otherwise and the loop treats the hit as a miss (modelled, not driven)",
+        "nil slice otherwise and the loop treats the hit as a miss (modelled; driven by a few hand-built streams without any "
+        "of the eight keys where the output schema stays constant)",
         "oracle: the 'previously selected second' starts at 0 as in the code, so a first sample whose ceiling second "
         "is 0 is never selected; c20_ok_time demands nothing outside its domain (first timestamp > 0, "
         "non-decreasing timestamps) - there GetGennyTime reports EndTime = ceil(max(0, ...))",
